@@ -488,6 +488,9 @@ impl Workload for LoWorkload {
                 a.push("ref.fa".into());
             }
             let r = run_proc(dir, &sim.proc(a), &mut log)?;
+            if let Some(d) = &r.recorded {
+                crate::sched::LAST_RECORDED.with(|l| *l.borrow_mut() = Some(d.clone()));
+            }
             let ctxs = format!("k={} threads={threads} {sim:?}", c.k);
             if r.sim_failed() {
                 viol = Some(("lo:deadlock-or-livelock".into(), ctxs));
@@ -837,6 +840,25 @@ impl Workload for LoWorkload {
             }
         }
         v
+    }
+    fn refine(&self, c: &LoCase, signature: &str) -> LoCase {
+        if c.variants.len() != 1 || c.variants[0].0 < 2 {
+            return c.clone(); // single-threaded: there is no schedule to minimise
+        }
+        crate::sched::minimise_schedule(
+            c,
+            |x| x.variants.get_mut(0).map(|v| &mut v.1),
+            |x| {
+                crate::sched::LAST_RECORDED.with(|l| *l.borrow_mut() = None);
+                let mut ctx = Ctx::new();
+                let _ = self.execute(x, &mut ctx);
+                crate::sched::LAST_RECORDED.with(|l| l.borrow_mut().take())
+            },
+            |x| {
+                let mut ctx = Ctx::new();
+                matches!(self.execute(x, &mut ctx), Ok(Outcome { violation: Some((ref s, _)), .. }) if s == signature)
+            },
+        )
     }
     fn sample_view(&self, c: &LoCase) -> Value {
         json!({"kind": c.kind, "k": c.k, "ancestor": c.ancestor, "samples": c.samples.len(), "sites": c.sites, "indels": c.indels, "ref_rc": c.ref_rc, "missing": c.missing, "variants": c.variants})
